@@ -115,6 +115,8 @@ struct SlotOps {
         void (*copy)(void *mem, const void *src) = nullptr;
         void (*move)(void *mem, void *src) = nullptr;
     } conv[MAX_STACKS];
+    // group wrap: build this stack from its outer configurations + std::move(inner.backend()); indexed by inner stack
+    void (*wrap[MAX_STACKS])(void *mem, const ModelField &outer_cfgs, const void *inner) = {};
     // group thr
     bool has_thr = false;
     void *(*make_view)(const void *obj) = nullptr; // heap-allocated field_view
@@ -129,6 +131,8 @@ extern const StackDesc g_stacks[];
 extern const int g_nstacks;
 extern const int g_conv_pairs[][2]; // {dst, src}
 extern const int g_nconv;
+extern const int g_wrap_pairs[][3]; // {outer, inner, number of outer-only layers}
+extern const int g_nwrap;
 SlotOps &ops_of(int stack);
 int stack_by_id(const char *id);
 
